@@ -18,6 +18,12 @@ mod tzstr;
 mod tzif;
 #[cfg(feature = "tz-alloc")]
 mod resolve;
+#[cfg(feature = "tz-alloc")]
+mod nopanic;
+
+#[cfg(feature = "tz-alloc")]
+#[global_allocator]
+static GLOBAL: nopanic::CountingAlloc = nopanic::CountingAlloc;
 
 use common::*;
 
@@ -53,6 +59,8 @@ fn main() {
             "tzif" => tzif::replay(&v["case"], &args),
             #[cfg(feature = "tz-alloc")]
             "resolve" => resolve::replay(&v["case"], &args),
+            #[cfg(feature = "tz-alloc")]
+            "nopanic" => nopanic::replay(&v["case"], &args),
             _ => {
                 eprintln!("no replay for engine {}", args.engine);
                 2
@@ -77,6 +85,10 @@ fn main() {
             "tzif" => tzif::run(&args),
             #[cfg(feature = "tz-alloc")]
             "resolve" => resolve::run(&args),
+            #[cfg(feature = "tz-alloc")]
+            "nopanic" => nopanic::run(&args),
+            #[cfg(feature = "tz-alloc")]
+            "nopanic-child" => nopanic::run_child(&args),
             e => {
                 eprintln!("unknown engine {e}");
                 2
